@@ -134,6 +134,7 @@ func NewWorld(x *vstat.Ctx, opt Options) (*World, error) {
 		return nil, err
 	}
 	w.S.OnRestart = func() {
+		w.Obs.noteCrash()
 		n := w.wantLink
 		w.wantLink = 0
 		for i := 0; i < n; i++ {
